@@ -13,8 +13,8 @@ CONFIG = dict(
     level_note="Trusted: Lean kernel; axioms propext/Classical.choice/Quot.sound; the hand-written model (checked only by the "
                "correspondence stream); harness glue (case decoding, Arc identity -> index). Modelled, not verified: hash-map "
                "iteration order (notifications of one call are compared as a set keyed by prefix), sort_unstable tie order, u32 "
-               "wrap of next_path_id, one shard only (dest_id shard bits = 0).",
-    lean_modules=["Rbgp.Rib.PropsC06", "Rbgp.Rib.PropsCodec", "Rbgp.Rib.PropsAlloc"],
+               "wrap of next_path_id; one Table (shard) per case, shard index from the case.",
+    lean_modules=["Rbgp.Rib.PropsC06", "Rbgp.Rib.PropsCodec", "Rbgp.Rib.PropsAlloc", "Rbgp.Rib.BitAlloc"],
     theorems=[
         "Rbgp.Rib.PropsCodec.c06_check_run_ok_of_codec",
         "Rbgp.Rib.PropsC06.check_run_ok",
@@ -26,9 +26,19 @@ CONFIG = dict(
         "Rbgp.Rib.PropsC06.end_deferral_complete",
         "Rbgp.Rib.PropsC06.notified_id",
         "Rbgp.Rib.PropsC06.one_per_prefix",
+        "Rbgp.Rib.PropsC06.same_prefix_same_payload",
         "Rbgp.Rib.PropsC06.id_stable",
         "Rbgp.Rib.PropsAlloc.alloc_lowest_free",
         "Rbgp.Rib.PropsAlloc.dealloc_frees_exactly",
+        "Rbgp.Rib.BitAlloc.alloc_spec",
+        "Rbgp.Rib.BitAlloc.dealloc_spec",
+        "Rbgp.Rib.BitAlloc.alloc_refines",
+        "Rbgp.Rib.BitAlloc.alloc_rel",
+        "Rbgp.Rib.BitAlloc.dealloc_rel",
+        "Rbgp.Rib.BitAlloc.allocFull_refines",
+        "Rbgp.Rib.BitAlloc.deallocFull_rel",
+        "Rbgp.Rib.BitAlloc.pack_inj",
+        "Rbgp.Rib.BitAlloc.reach_WF",
     ],
     harness=dict(kind="pt", bin="c06"),
     profiles=["debug", "release"], profile_in_case=True,
@@ -41,17 +51,20 @@ CONFIG = dict(
          "start/end deferral (deferral stream: families deferred from the start), prefix limits; plus structural mutations; "
          "distinct = distinct case line",
     expect_tokens=["nochange", "limit", "(chs)", "(chs (", "(ch (", " f t - ", " t t - ", " f t 1 ", "(stale 0",
-                   "(llgr 0", "(fam ev (dests ((m", "(bad-case)"],
+                   "(llgr 0", "(fam ev (dests ((m", "(bad-case)", "purge-hit", "restale-rebest", "restale-llgr-rebest",
+                   "id-ge-64", "id-ge-128"],
     trusted_base=["model Rbgp/Rib/Model.lean of table/src/lib.rs",
                   "harness/pt/src/rib.rs (shared with C02/C15): real Table through its public API; every returned "
                   "InsertResult / NlriChange and collect_loc_rib_paths after each step are observed"],
     modelled_not_verified=["hash-map iteration order", "sort_unstable tie order", "u32 wrap-around of next_path_id",
-                           "a single shard (shard_idx 0)"],
+                           "one table per case (its shard index is taken from the case; the dest_id packing is observed, the "
+                           "bitmap IdAllocator is modelled in BitAlloc.lean and proved to refine the model's id set)"],
     assumptions=["well-formed case (Case.WF): one family per Source, sources referred to by position",
                  "a deferral is an episode that starts on a family whose exportable state is empty (the restarting speaker at "
-                 "start-up, daemon/src/event/mod.rs); a family whose deferral starts otherwise is no longer judged by the fold "
-                 "clauses (weaker than the quantifier 'all histories with start/end deferral': Table::insert is silent while "
-                 "deferring, so a consumer that already holds state for the family cannot be kept exact by any stream)"],
+                 "start-up, daemon/src/event/mod.rs); a family whose deferral starts otherwise is not judged by the fold clauses "
+                 "until the end of that deferral re-announces everything (Table::insert is silent while deferring, so a consumer "
+                 "that already holds state for the family cannot be kept exact by any stream)",
+                 "one session of a peer is established at a time (C07), see C02"],
     claimed=True,
 )
 
